@@ -9,6 +9,10 @@ OBLIGATIONS = [
        what='decode(encode(v)) == v with exact length and no error flag, for OASIS unsigned / signed / 2- / 3- / g-delta',
        bound='all 64-bit unsigned; signed all but INT64_MIN; deltas |v| < 2^60..2^62 (packed direction bits take up to 4 bits)',
        variants=[{'OP': k} for k in range(5)], unwind=12, timeout=300),
+    Ob('oas_int_decoders_vs_reference', 'C19/oas_dec.c', OAS_R,
+       what='OASIS unsigned/signed/2-/3-/g-delta decoders equal a 128-bit reference interpreter of the grammar on arbitrary byte strings (value, consumed length); values that do not fit raise the Overflow flag',
+       bound='every byte string whose integer encodings are 1..11 bytes long each (non-minimal encodings included)',
+       variants=[{'OP': k} for k in range(5)], unwind=13, timeout=300),
 ]
 BOUNDS = 'see obligations'
 OUTSIDE = ''
